@@ -4,7 +4,8 @@ import os
 from pathlib import Path
 import re
 from typing import (
-        Any, AnyStr, Callable, cast, Dict, IO, List, overload, TypeVar, Union
+        Any, AnyStr, Callable, cast, Dict, IO, List, Optional, overload,
+        TypeVar, Union
         )  # noqa
 from typing_extensions import ClassVar, Type    # noqa
 
@@ -191,7 +192,9 @@ class Loader(yaml.SafeLoader):
             'Unknown type {} in type_to_tag,'  # pragma: no cover
             ' please report a YAtiML bug.').format(type_))
 
-    def __savorize(self, node: yaml.Node, expected_type: Type) -> yaml.Node:
+    def __savorize(
+            self, node: yaml.Node, expected_type: Type,
+            done: Optional[set] = None) -> yaml.Node:
         """Removes syntactic sugar from the node.
 
         This calls _yatiml_savorize(), first on the class's base
@@ -200,13 +203,21 @@ class Loader(yaml.SafeLoader):
         Args:
             node: The node to modify.
             expected_type: The type to assume this type is.
+            done: Classes already savorized for, so that a base class
+                    reached along two paths is only done once.
         """
         logger.debug('Savorizing node assuming type {}'.format(
             expected_type.__name__))
 
+        if done is None:
+            done = set()
+        done.add(expected_type)
+
         for base_class in expected_type.__bases__:
-            if base_class in self._registered_classes.values():
-                node = self.__savorize(node, base_class)
+            if (
+                    base_class in self._registered_classes.values()
+                    and base_class not in done):
+                node = self.__savorize(node, base_class, done)
 
         if '_yatiml_savorize' in expected_type.__dict__:
             logger.debug('Calling {}._yatiml_savorize()'.format(
